@@ -415,9 +415,6 @@ func c12Lits(maxLen int) []c12lit {
 	exps := []string{"", "e3", "E3", "e-3", "e+3", "e0", "e10", "e-10", "e308", "e-320", "e400"}
 	for _, m := range mant {
 		for _, e := range exps {
-			if strings.HasPrefix(m, ".") && e != "" {
-				continue // the reader's FloatRegex has no exponent after a leading-dot fraction
-			}
 			for _, sign := range []string{"", "-"} {
 				t := sign + m + e
 				f, err := strconv.ParseFloat(strings.ReplaceAll(t, "_", ""), 64)
